@@ -112,6 +112,7 @@ pub fn gen_layer(rng: &mut Rng, name: &str, id_key: Option<&str>) -> GLayer {
 	}).collect();
 	GLayer { name: name.to_string(), extent: *rng.pick(&[4096u32, 4096, 512, 8192, 1]), version: *rng.pick(&[1u32, 2, 2]), keys, vals, feats, tables_first: rng.chance(1, 2) }
 }
+pub fn gen_tile_pub(rng: &mut Rng) -> GTile { gen_tile(rng, Some("tid")) }
 fn gen_tile(rng: &mut Rng, id_key: Option<&str>) -> GTile {
 	let names = ["roads", "water", "pois", "ünï"];
 	let n = rng.range(0, 3) as usize; let start = rng.below(4) as usize;
